@@ -50,6 +50,22 @@ func vc19Shares() []int {
 	return []int{2, 3, 4, 5, 9} // 9: first count above the table of precomputed inverses (1/shares by inversion)
 }
 
+// vc19SharesFor: the aggregator counts for the pi-th parameter set of an
+// instance type.  In the quick tier the counts whose doubled number of seeds
+// no longer fits eight bits (128, 255: joint-randomness instances need two
+// seeds per aggregator) are run for the third parameter set only; the thorough
+// tier runs 255 for every small parameter set.
+func vc19SharesFor(pi int) []int {
+	s := vc19Shares()
+	if !lib.Thorough() && pi == 2 {
+		s = append(append([]int{}, s...), 128, 255)
+	}
+	if lib.Thorough() && pi == 2 {
+		s = append(append([]int{}, s...), 127, 128, 129, 200)
+	}
+	return s
+}
+
 func vc19BatchLen(r *lib.Rng, shares int) int {
 	n := 1 + r.Intn(lib.Scale(6, 20))
 	if shares > 16 && n > 2 {
@@ -85,8 +101,12 @@ func vc19Reject(typ string, kv ...any) {
 // ---------------------------------------------------------------- Count
 
 func vc19CountCases() (cs []vc19Case) {
-	for k := 0; k < 6*len(vc19Shares()); k++ {
-		n := vc19Shares()[k%len(vc19Shares())]
+	sh := vc19SharesFor(2)
+	for k := 0; k < 6*len(vc19Shares())+len(sh)-len(vc19Shares()); k++ {
+		n := sh[k%len(sh)]
+		if k >= 6*len(vc19Shares()) {
+			n = sh[len(vc19Shares())+k-6*len(vc19Shares())]
+		}
 		cs = append(cs, vc19Case{fmt.Sprintf("count/n=%d/%d", n, k), n, func(r *lib.Rng) {
 			ctx := vc19Ctx(r)
 			c, err := count.New(uint8(n), ctx)
@@ -141,8 +161,8 @@ func vc19SumMeas(r *lib.Rng, max uint64) uint64 {
 var vc19P64 = uint64(0xffffffff00000001)
 
 func vc19SumCases() (cs []vc19Case) {
-	for _, max := range vc19SumMaxes() {
-		for _, n := range vc19Shares() {
+	for pi, max := range vc19SumMaxes() {
+		for _, n := range vc19SharesFor(pi) {
 			max, n := max, n
 			cs = append(cs, vc19Case{fmt.Sprintf("sum/max=%d/n=%d", max, n), n, func(r *lib.Rng) {
 				ctx := vc19Ctx(r)
@@ -221,8 +241,8 @@ func vc19SumVecMeas(r *lib.Rng, p vc19SV) []uint64 {
 }
 
 func vc19SumVecCases() (cs []vc19Case) {
-	for _, p := range vc19SumVecParams() {
-		for _, n := range vc19Shares() {
+	for pi, p := range vc19SumVecParams() {
+		for _, n := range vc19SharesFor(pi) {
 			p, n := p, n
 			if n > 16 && p.length*p.bits > 128 {
 				continue
@@ -283,8 +303,8 @@ func vc19HistMeas(r *lib.Rng, p vc19H) uint64 {
 }
 
 func vc19HistCases() (cs []vc19Case) {
-	for _, p := range vc19HistParams() {
-		for _, n := range vc19Shares() {
+	for pi, p := range vc19HistParams() {
+		for _, n := range vc19SharesFor(pi) {
 			p, n := p, n
 			if n > 16 && p.length > 128 {
 				continue
@@ -358,8 +378,8 @@ func vc19MHMeas(r *lib.Rng, p vc19MH, mode int) []bool {
 }
 
 func vc19MHCases() (cs []vc19Case) {
-	for _, p := range vc19MHParams() {
-		for _, n := range vc19Shares() {
+	for pi, p := range vc19MHParams() {
+		for _, n := range vc19SharesFor(pi) {
 			p, n := p, n
 			if n > 16 && p.length > 128 {
 				continue
